@@ -286,15 +286,16 @@ fn builder_push_verify_after_data() {
 }
 
 // push_slice: minimal header for the data length, content copied verbatim, previous bytes untouched.
-// One instance per concrete length (README: no symbolic allocation lengths); content symbolic where SYM.
+// One instance per concrete length (README: no symbolic allocation lengths); content symbolic and every content
+// position checked (symbolic index) where SYM; zero content and first/last position checked for the long ones.
 macro_rules! push_slice_len {
     ($name:ident, $len:expr, $sym:expr) => {
         #[kani::proof]
         fn $name() {
             const L: usize = $len;
             let data: [u8; L] = if $sym { kani::any() } else { [0u8; L] };
-            let probe: usize = kani::any();
-            kani::assume(probe < L || L == 0);
+            let probe: usize = if $sym { kani::any() } else { L - 1 };
+            kani::assume(probe < L);
             let pre: u8 = kani::any();
             let b = ManuallyDrop::new(Builder::new().push_opcode(opcodes::All::from(pre)).push_slice(&data));
             let out = bytes(&b);
@@ -313,18 +314,24 @@ macro_rules! push_slice_len {
                 5
             };
             assert!(out.len() == 1 + h + L);
-            if L > 0 {
-                // every content byte (symbolic index) is the data byte
-                assert!(out[1 + h + probe] == data[probe]);
-            }
+            assert!(out[1 + h + probe] == data[probe]);
+            assert!(out[1 + h] == data[0]);
             assert!(b.1.is_none());
             kani::cover!(true);
         }
     };
 }
 //@ harness: builder_push_slice_l0 class=F tier=quick
-//@ clause: push_slice of 0 bytes -> header 0x00 (OP_0), nothing else
-push_slice_len!(builder_push_slice_l0, 0, true);
+//@ clause: push_slice of 0 bytes -> header 0x00 (OP_0), nothing else; previous byte untouched; no last-opcode remembered
+#[kani::proof]
+#[kani::unwind(2)] // iterating an empty slice: `ptr == end` on a zero-sized object is not constant-folded by CBMC
+fn builder_push_slice_l0() {
+    let pre: u8 = kani::any();
+    let b = ManuallyDrop::new(Builder::new().push_opcode(opcodes::All::from(pre)).push_slice(&[]));
+    assert!(b.0.len() == 2 && b.0[0] == pre && b.0[1] == 0x00);
+    assert!(b.1.is_none());
+    kani::cover!(true);
+}
 //@ harness: builder_push_slice_l1 class=F tier=quick
 //@ clause: push_slice of 1 byte (any content) -> 0x01 <byte>
 push_slice_len!(builder_push_slice_l1, 1, true);
@@ -340,9 +347,9 @@ push_slice_len!(builder_push_slice_l255, 255, false);
 //@ harness: builder_push_slice_l256 class=F tier=quick
 //@ clause: push_slice of 256 bytes -> PUSHDATA2 00 01 (zero content)
 push_slice_len!(builder_push_slice_l256, 256, false);
-//@ harness: builder_push_slice_l65535 class=F tier=thorough
+//@ harness: builder_push_slice_l65535 class=F tier=thorough timeout=1800
 //@ clause: push_slice of 65535 bytes -> PUSHDATA2 ff ff (zero content)
 push_slice_len!(builder_push_slice_l65535, 65535, false);
-//@ harness: builder_push_slice_l65536 class=F tier=thorough
+//@ harness: builder_push_slice_l65536 class=F tier=thorough timeout=1800
 //@ clause: push_slice of 65536 bytes -> PUSHDATA4 00 00 01 00 (zero content)
 push_slice_len!(builder_push_slice_l65536, 65536, false);
